@@ -120,5 +120,8 @@ func Int31n(n int32) int32 { return global.Int31n(n) }
 func Perm(n int) []int     { return global.Perm(n) }
 func Seed(seed int64)      { rand.Seed(seed) }
 
+// PeekNextID returns the id the next generator created by New will get.
+func PeekNextID() int { return nextID }
+
 // ResetGlobal puts the package-level generator back into its initial state (between executions).
 func ResetGlobal() { global.fresh = true; global.remaining = 0; nextID = 0 }
